@@ -181,6 +181,61 @@ def run(chk: common.Check, tier: str):
                     chk.violation(f"after the parse error mode is {x.get('invalid_flag')}, it was {mode} before",
                                   {"grammar": t, "input": src}, True)
     chk.sample({"grammar": texts[0]}, 2)
+    python_driver(chk)
+
+
+def python_driver(chk):
+    """(3) the driver of the shipped Python grammar (Parser.parse in data/python.gram): the FIRST pass of every parse() call
+    runs with error mode off -- also a second call on the same parser object after a first one failed"""
+    import ast
+    import io
+    import tokenize
+    from checks import c07
+    from pegen.tokenizer import Tokenizer
+    ns = c07.build_parser()
+    base = ns["PythonParser"]
+    calls: list[str] = []
+
+    def spy(name, fn):
+        def wrapper(self, *a, **kw):
+            if getattr(self, "spying", False) and self.call_invalid_rules is False:
+                pass
+            if getattr(self, "spying", False):
+                calls.append(name)
+            return fn(self, *a, **kw)
+        return wrapper
+    body = {"spying": False}
+    for name in dir(base):
+        if name.startswith("invalid_"):
+            body[name] = spy(name, getattr(base, name))
+    cls = type("SpyParser", (base,), body)
+    # valid programs on which some invalid_* rule would misfire or at least run if error mode were on
+    for src in ("y = 1\nmatch(y)\n", "x = [1, 2]\nprint(x)\n", "def f(a, b=1):\n    return a\n"):
+        def fresh():
+            return cls(Tokenizer(tokenize.generate_tokens(io.StringIO(src).readline)))
+        chk.count()
+        try:
+            want = ast.dump(fresh().parse("file"))
+        except SyntaxError as e:
+            chk.violation(f"the Python parser rejects a valid program: {e}", {"source": src}, True)
+            continue
+        p = fresh()
+        try:
+            p.parse("eval")
+            continue            # also a valid expression: not the scenario
+        except SyntaxError:
+            pass
+        p.spying = True
+        calls.clear()
+        try:
+            got = ast.dump(p.parse("file"))
+            err = None
+        except SyntaxError as e:
+            got, err = None, str(e)
+        if err is not None or got != want or calls:
+            chk.violation("a second parse() on the same Python parser object, after a failed first one, does not start with "
+                          f"error mode off: error={err}, invalid_ rules run in a successful parse: {sorted(set(calls))[:6]}",
+                          {"source": src, "scenario": "p.parse('eval') raises SyntaxError, then p.parse('file') on the same object"}, True)
 
 
 def replay(path: str) -> int:
